@@ -363,6 +363,8 @@ Definition e_cr : str := [38;35;49;51;59].
 Definition e_tab : str := [38;35;57;59].
 Definition sax_escape (s : str) : str :=
   replace_chr c_lt e_lt (replace_chr c_gt e_gt (replace_chr c_amp e_amp s)).
+(* XmlEventWriter's XMLGenerator subclass: characters() = escape(content, {"\r": "&#13;"}) *)
+Definition sax_escape_text (s : str) : str := replace_chr 13 e_cr (sax_escape s).
 Definition sax_quoteattr (s : str) : str :=
   let d := replace_chr 9 e_tab (replace_chr 13 e_cr (replace_chr 10 e_nl (sax_escape s))) in
   if mem c_quot d then
@@ -467,7 +469,7 @@ Definition nstep (s : nstate) (c : sax) : nstate + perr :=
       | [] => inl s
       | _ => let s1 := n_finish s in
              inl {| n_saved := n_saved s1; n_cur := n_cur s1; n_undecl := n_undecl s1; n_pend := None;
-                    n_out := XText (sax_escape t) :: n_out s1 |}
+                    n_out := XText (sax_escape_text t) :: n_out s1 |}
       end
   end.
 
@@ -765,11 +767,6 @@ Definition cfg_texts_ok (cfg : wconfig) : bool :=
                     | None => true end)
           [cfg_schema_location cfg; cfg_no_ns_schema_location cfg].
 Definition texts_ok (cfg : wconfig) (evs : list wevent) : bool := on_tree t_texts_ok evs && cfg_texts_ok cfg.
-(* XMLGenerator.characters writes CR raw; the XML parser turns it into LF *)
-Definition t_no_cr : item -> bool :=
-  all_nodes (fun _ _ _ => true) (fun v => forallb (fun s => negb (mem 13 s)) (value_texts v)).
-Definition no_cr_in_data (evs : list wevent) : bool := on_tree t_no_cr evs.
-
 (* -- clause: user prefixes ---------------------------------------------------------------- *)
 Definition user_prefix_legal (e : option str * str) : bool :=
   match fst e with
@@ -867,7 +864,7 @@ Definition user_map_ok (cfg : wconfig) (user : nsmap) (evs : list wevent) : bool
   && default_not_on_attr cfg user evs && default_qname_ok user evs.
 
 Definition events_ok (cfg : wconfig) (evs : list wevent) : bool :=
-  names_ok evs && texts_ok cfg evs && no_cr_in_data evs && no_adjacent_data evs
+  names_ok evs && texts_ok cfg evs && no_adjacent_data evs
   && no_late_qname_data evs && nil_content_ok evs && no_clark_datatype_text evs && events_wf evs.
 
 Definition writer_guard (cfg : wconfig) (user : nsmap) (evs : list wevent) : bool :=
@@ -891,7 +888,7 @@ Definition expected (cfg : wconfig) (evs : list wevent) : option enode :=
 (* the clauses of writer_guard, in a fixed order (used by the refutation lemmas) *)
 Definition clause_vector (cfg : wconfig) (user : nsmap) (evs : list wevent) : list bool :=
   [ user_prefixes_legal user; default_not_on_attr cfg user evs;
-    default_qname_ok user evs; names_ok evs; texts_ok cfg evs; no_cr_in_data evs;
+    default_qname_ok user evs; names_ok evs; texts_ok cfg evs;
     no_adjacent_data evs; no_late_qname_data evs; nil_content_ok evs; no_clark_datatype_text evs;
     events_wf evs ].
 
